@@ -89,8 +89,8 @@ func (e *env[E, P, D, T]) sameDomain(a, b *D, lg int, probe []E) (bool, string) 
 			var pan any
 			func() {
 				defer func() { pan = recover() }()
-				f(a, x, dit, true, 3, true)
-				f(b, y, dit, true, 3, true)
+				f(a, x, dit, true, 1, true) // one task: the library stays on this goroutine, a panic is recoverable
+				f(b, y, dit, true, 1, true)
 			}()
 			if pan != nil {
 				return false, fmt.Sprintf("transform panicked: %v", pan)
@@ -221,8 +221,8 @@ func (e *env[E, P, D, T]) domainIO() {
 							} else if ok {
 								x, y := append([]E(nil), probe...), append([]E(nil), probe...)
 								if !c.Guard(key+"/panic", func() string { return tag }, func() {
-									e.in.FFT(d, x, false, true, 2, true)
-									e.in.FFT(other, y, false, true, 2, true)
+									e.in.FFT(d, x, false, true, 1, true)
+									e.in.FFT(other, y, false, true, 1, true)
 								}) {
 									ok = ffts.RawEqual(x, y)
 									why = "FFT(DIF, coset) output differs"
